@@ -59,6 +59,9 @@ type worldConfig struct {
 	// above the maximum, or class 0 where size classes are in use, must
 	// be refused.
 	WorkerClasses []uint32    `json:"worker_classes,omitempty"`
+	// NestedWorkerIDs: workers that share worker 0's size class queue carry
+	// worker 0's complete ID plus a "slot" entry.
+	NestedWorkerIDs bool `json:"nested_worker_ids,omitempty"`
 	RetryCount    int         `json:"retry_count"`
 	NActions      int         `json:"n_actions"`
 	NWorkers      int         `json:"n_workers"`
@@ -191,6 +194,8 @@ type world struct {
 
 	invPaths      []string // override of the invocation path pool
 	fixedPriority bool
+	// skipCacheLookup: the next Execute carries skip_cache_lookup.
+	skipCacheLookup bool
 
 	alwaysRetry bool
 	// injection, when set, runs once at the next lock-held injection
@@ -329,9 +334,16 @@ func newWorld(rt *rapid.T, cfg worldConfig) *world {
 				reject = "no size class although the platform queue uses them"
 			}
 		}
+		id := map[string]string{"host": fmt.Sprintf("w%d", i), "pool": fmt.Sprintf("p%d", i%2)}
+		if cfg.NestedWorkerIDs && i > 0 && reject == "" && qi == w.workers[0].queue && sc == w.workers[0].sizeClass {
+			// The complete ID of worker 0 is a proper subset of this
+			// worker's ID: a pattern that names worker 0 exactly matches
+			// this worker too.
+			id = map[string]string{"host": "w0", "pool": "p0", "slot": fmt.Sprintf("%d", i)}
+		}
 		w.workers = append(w.workers, &workerSim{
 			idx:       i,
-			id:        map[string]string{"host": fmt.Sprintf("w%d", i), "pool": fmt.Sprintf("p%d", i%2)},
+			id:        id,
 			queue:     qi,
 			sizeClass: sc,
 			reject:    reject,
@@ -401,7 +413,12 @@ func (w *world) stepExecute(instancePool []string) {
 		plan.BgOnSuccess = false
 	}
 	w.nextExec++
+	// skip_cache_lookup is the front end's business (it bypasses the Action
+	// Cache lookup); the scheduler treats such a request like any other,
+	// in-flight deduplication included.
+	w.skipCacheLookup = rapid.IntRange(0, 3).Draw(w.rt, "skipCacheLookup") == 0
 	w.execute(t, inst, prio, inv, plan)
+	w.skipCacheLookup = false
 }
 
 func (w *world) execute(t *actionTemplate, inst string, prio int32, inv string, plan *sizePlan) *streamSim {
@@ -419,6 +436,10 @@ func (w *world) execute(t *actionTemplate, inst string, prio int32, inv string, 
 		InstanceName:    inst,
 		ActionDigest:    &remoteexecution.Digest{Hash: t.hash, SizeBytes: t.sizeBytes},
 		ExecutionPolicy: &remoteexecution.ExecutionPolicy{Priority: prio},
+		SkipCacheLookup: w.skipCacheLookup,
+	}
+	if w.skipCacheLookup {
+		w.m.label("execute_with_skip_cache_lookup")
 	}
 	w.m.onExecuteStart(s)
 	go func() {
